@@ -144,6 +144,12 @@ def compare(exp, got):
     return sorted(bad)[:8]
 
 
+def pre_use(m, X):
+    """gives the estimator object a past: fitted on another small input and used, before the fit under test (nothing may leak)"""
+    m.fit(X)
+    m.transform(X)
+
+
 def docs_of(corpus):
     return [[TOKS[t] for t in d] for d in corpus]
 
@@ -167,6 +173,8 @@ def run_token(item):
         out.update(ok=False, where="fit_transform", bad=bad)
     if item.get("do_transform", True):
         m2 = C(**kw)
+        if item.get("reuse"):
+            pre_use(m2, docs_of([[1, 0, 1, 1, 0][: 2 + V], [0]]))
         r = m2.fit(X)
         if r is not m2:
             out.update(ok=False, fit_returns_self=False)
@@ -197,6 +205,8 @@ def run_timed(item):
             break
         if item.get("do_transform", True) and shift == 0:
             m2 = C(**kw)
+            if item.get("reuse"):
+                pre_use(m2, [[(TOKS[1], 0.0), (TOKS[0], 1.0), (TOKS[1], 3.0)], [(TOKS[0], 5.0)]])
             if m2.fit(X) is not m2:
                 out.update(ok=False, fit_returns_self=False)
             M2 = m2.transform(X)
@@ -221,6 +231,8 @@ def run_multi(item):
         out.update(ok=False, where="fit_transform", bad=bad)
     if item.get("do_transform", True):
         m2 = C(**kw)
+        if item.get("reuse"):
+            pre_use(m2, [[[TOKS[1]], [TOKS[0], TOKS[1]], [TOKS[1]]]])
         if m2.fit(X) is not m2:
             out.update(ok=False, fit_returns_self=False)
         M2 = m2.transform(X)
@@ -249,6 +261,8 @@ def run_ngram(item):
         out.update(ok=False, where="fit_transform", bad=bad)
     if item.get("do_transform", True):
         m2 = C(**kw)
+        if item.get("reuse"):
+            pre_use(m2, docs_of([[1, 0, 1, 1, 0, 0, 1]]))
         if m2.fit(X) is not m2:
             out.update(ok=False, fit_returns_self=False)
         M2 = m2.transform(X)
@@ -312,6 +326,8 @@ def run(item):
         if mode == "ft":
             M = m.fit_transform(X)
         elif mode == "t":
+            if item.get("reuse"):
+                pre_use(m, build_X(dict(item, times=None), vocab_doc(item)))
             r = m.fit(X)
             if r is not m:
                 out["ok"] = False
